@@ -22,7 +22,9 @@ import stat
 import tempfile
 import time
 
-from .common import Check, Err, cN, clist, copt, cstr, impl_call
+import json
+
+from .common import VERIF, Check, Err, cN, clist, copt, cstr, impl_call
 
 IMPORTS = ("From Coq Require Import List NArith ZArith Bool.\n"
            "From Verif Require Import Base.Val C25.Path_C25 C25.Model_C25 C25.Spec_C25.")
@@ -287,6 +289,23 @@ def build_tree(rng, root, big, devices):
             os.utime(p, (mt, mt), follow_symlinks=False)
 
 
+def respell(rng, t):
+    """another spelling of the same symlink target (never two leading slashes: POSIX keeps those)"""
+    how = rng.choice(["trail", "double", "dot", "updown", "trail"])
+    if how == "trail":
+        return t + "/"
+    if how == "double" and "/" in t[1:]:
+        i = t.index("/", 1)
+        return t[:i] + "/" + t[i:]
+    if how == "dot":
+        return ("/." + t) if t.startswith("/") else ("./" + t)
+    if how == "updown" and t.strip("/"):
+        first = t.strip("/").split("/")[0]
+        if first not in (".", ".."):
+            return ("/" if t.startswith("/") else "") + first + "/../" + t.lstrip("/")
+    return t + "/."
+
+
 def shape_set(rng, objs, shape):
     """turn the scanned objects into the contents set of the case; returns (list of fs objects, tags)"""
     from pkgcore.fs import fs
@@ -334,6 +353,9 @@ def shape_set(rng, objs, shape):
                 target = links[-1].location if links else d.location
                 if rng.random() < 0.5:
                     target = os.path.relpath(target, os.path.dirname(name))
+                if rng.random() < 0.4:     # the same target, spelled un-normalised
+                    target = respell(rng, target)
+                    tags.add("symdir-target-respelled")
                 links.append(fs.fsSymlink(name, target, mode=0o777, uid=0, gid=0, mtime=rng.randint(0, 99)))
                 taken.add(name)
             if links:
@@ -345,6 +367,14 @@ def shape_set(rng, objs, shape):
                         tags.add("symdir" if len(links) == 1 else "symdir-chain")
                     new.append(x)
                 objs = new + links
+                # the directory the symlink resolves to need not be an entry of the set: it can be implied
+                # only (supplied by add_missing_directories on read, or owned by another package)
+                if rng.random() < 0.45:
+                    drop = {d.location}
+                    if rng.random() < 0.3:
+                        drop |= {x.location for x in objs if x.is_dir and d.location.startswith(x.location + "/")}
+                    objs = [x for x in objs if not (x.is_dir and x.location in drop)]
+                    tags.add("symdir-implied-target")
     if rng.random() < 0.5:
         rng.shuffle(objs)
         tags.add("shuffled")
@@ -473,7 +503,7 @@ def in_symdir_chain_class(cin):
         if not any(e["loc"].startswith(s1["loc"] + "/") for e in cin):
             continue
         t = s1["target"]
-        rt = t if t.startswith("/") else os.path.normpath(os.path.join(s1["loc"], "../", t))
+        rt = os.path.normpath(t if t.startswith("/") else os.path.join(s1["loc"], "../", t))
         for s2 in syms:
             if s2["loc"] != s1["loc"] and (rt == s2["loc"] or rt.startswith(s2["loc"] + "/")
                                            or s1["loc"].startswith(s2["loc"] + "/")):
@@ -524,8 +554,6 @@ def members_as_set(members):
 # --------------------------------------------------------------------------- foreign archives
 def build_foreign(rng, path, ids, shape):
     """write a tar file with the standard library from an explicit member list"""
-    import io
-    import tarfile as std_tarfile
     tags = {shape}
     mem = []  # (name, type, mode, uid, gid, mtime, linkname, content, major, minor)
 
@@ -563,10 +591,36 @@ def build_foreign(rng, path, ids, shape):
         if rng.random() < 0.5:
             other(pre + "a/cdev", b"3", mode=0o620)
             other(pre + "a/bdev", b"4", mode=0o660)
+    elif shape == "symdir1":
+        # ONE symlinked directory; its target directory an explicit member, or only implied; the target
+        # spelled relative / absolute / un-normalised
+        base = rng.choice(["usr", "opt/app-1.0", "a b"])
+        tdir = rng.choice(["lib64", "real dir", "x/y"])
+        for a in ([base.split("/")[0]] + ([base] if "/" in base else [])) if rng.random() < 0.8 else []:
+            other("./" + a, b"5")
+        if rng.random() < 0.5:
+            other(f"./{base}/{tdir}", b"5")
+        else:
+            tags.add("symdir-implied-target")
+        if rng.random() < 0.5:
+            reg(f"./{base}/{tdir}/present")
+        tgt = rng.choice([tdir, f"/{base}/{tdir}", f"../{base.split('/')[-1]}/{tdir}"])
+        if rng.random() < 0.5:
+            tgt = respell(rng, tgt)
+            tags.add("symdir-target-respelled")
+        other(f"./{base}/lnk", b"2", tgt)
+        reg(f"./{base}/lnk/libfoo.so")
+        reg(f"./{base}/lnk/sub/deep")
+        other(f"./{base}/lnk/hard", b"1", f"./{base}/lnk/libfoo.so")
+        other(f"./{base}/lnk/pipe", b"6")
+        if rng.random() < 0.5:
+            rng.shuffle(mem)
+            hl = [m for m in mem if m[1] == b"1"]      # keep the hardlink after its target
+            mem[:] = [m for m in mem if m[1] != b"1"] + hl
     elif shape == "symdir":
         other("./lib64", b"5")
         other("./usr", b"5")
-        other("./lib", b"2", rng.choice(["lib64", "/lib64", "./lib64"]))
+        other("./lib", b"2", rng.choice(["lib64", "/lib64", "./lib64", "/lib64/", "lib64/.", "/./lib64"]))
         reg("./lib/f1")
         reg("./lib/sub/f2")
         other("./lib/inner", b"2", "../usr")
@@ -584,6 +638,14 @@ def build_foreign(rng, path, ids, shape):
     elif shape == "unknown":
         reg("./a")
         other("./weird", b"V")
+    write_foreign(mem, path, ids)
+    return tags
+
+
+def write_foreign(mem, path, ids):
+    """mem: rows (name, type byte, mode, uid, gid, mtime, linkname, content|None, major, minor)"""
+    import io
+    import tarfile as std_tarfile
     with open(path, "wb") as f:
         tf = std_tarfile.TarFile(fileobj=f, mode="w")
         for name, ty, mode, uid, gid, mt, link, content, mj, mn in mem:
@@ -597,7 +659,6 @@ def build_foreign(rng, path, ids, shape):
             else:
                 tf.addfile(ti)
         tf.close()
-    return tags
 
 
 # --------------------------------------------------------------------------- main
@@ -608,7 +669,9 @@ def main(chk: Check):
              "directories/nowhere and chains of them, fifos, device nodes, odd and >100-char names, uid/gid "
              "beyond the ustar range, quarter-second mtimes, setuid/sticky modes), then shaped: as scanned / "
              "directory entries dropped / files without dev+inode / same inode with different attributes / "
-             "entries relocated beneath symlinks to directories (also chained) / shuffled order; written with "
+             "entries relocated beneath symlinks to directories (also chained; the target directory an entry of the "
+             "set or only implied; the target spelled normalised or with trailing/doubled slashes, './', 'x/../') / "
+             "shuffled order; corpus/C25 first; written with "
              "bzip2, xz and uncompressed.  Foreign archives written with tarfile: hardlink chains, names "
              "without './', '.' member, symlinked directories, dangling hardlinks, unknown types; empty "
              "archives.  non-trivial = a set with at least one of: a hardlink group, an entry beneath a "
@@ -622,8 +685,11 @@ def main(chk: Check):
     rng = chk.rng
     work = tempfile.mkdtemp(prefix="verif_c25_")
     w_cases, rt_cases, rd_cases = [], [], []
-    rt_meta = []
+    rt_meta, rd_meta = [], []
     prop_failures = []
+    corpus = []
+    for f in sorted((VERIF / "corpus" / "C25").glob("*.json")):
+        corpus.append((f.stem, json.loads(f.read_text())))
     try:
         can_mknod = True
         try:
@@ -679,6 +745,12 @@ def main(chk: Check):
             if os.path.exists(tarpath):
                 os.unlink(tarpath)
 
+        # corpus first (corpus/C25/*.json: minimised cases of defects this check once missed)
+        for name, case in corpus:
+            if case.get("stream") == "rt":
+                ids = Ids()
+                run_set("corpus:" + name, contents.contentsSet(objs_from_cin(case["set"], ids)), ids, "corpus",
+                        case.get("codec", "bz2"), set(case.get("tags", ["corpus"])))
         # the witness of Proofs_C25.symdirs_resolved_refuted (chain_set), replayed on the implementation
         from pkgcore.fs import fs as fsmod
         kw = {"uid": 0, "gid": 0, "mtime": 0}
@@ -702,12 +774,8 @@ def main(chk: Check):
         t_sets = time.time() - chk.t0
 
         # ---- foreign archives
-        fshapes = ["chain", "names", "symdir", "dangling", "unknown", "symdir", "chain"]
-        for i in range(150 if chk.thorough else (63 if chk.fingerprint_changed else 21)):
-            ids = Ids()
-            shape = fshapes[i % len(fshapes)]
-            p = os.path.join(work, f"f{i}.tar")
-            build_foreign(rng, p, ids, shape)
+        fshapes = ["chain", "symdir1", "names", "symdir", "dangling", "symdir1", "unknown", "symdir", "chain"]
+        def run_rd(i, p, ids, shape):
             members = read_members(p, ids)
             codec = rng.choice(["raw", "bz2", "xz"])
             blob = open(p, "rb").read()
@@ -718,6 +786,7 @@ def main(chk: Check):
             mlocs = {os.path.normpath("/" + m[0].strip("/")) for m in members}
             rows = guarded(lambda: canon_out(impl_read(p, codec), ids, t0, time.time(), mlocs))
             rd_cases.append((clist([c_member(m) for m in members], "member"), rows))
+            rd_meta.append({"case": i, "shape": shape, "codec": codec, "members": members})
             chk.nontrivial(("rd", shape, tuple(tuple(m[:2]) for m in members)))
             # (B) read side, directly on the implementation: the archive read as a set must be the set the
             # members describe, symlinked directories resolved, hardlink members sharing their target's inode
@@ -731,9 +800,25 @@ def main(chk: Check):
                         prop_failures.append({"stream": "rd", "shape": shape, "codec": codec, "failure": bad,
                                               "members": members, "set": said, "read_back": rows})
                 chk.cov["streams"]["rd-oracle"] = chk.cov["streams"].get("rd-oracle", 0) + 1
-            if i < 1:
+            if len(rd_cases) == 1:
                 chk.sample({"stream": "rd", "shape": shape, "codec": codec, "members": members, "read_back": rows})
             os.unlink(p)
+
+        for name, case in corpus:
+            if case.get("stream") != "rd":
+                continue
+            ids = Ids()
+            p = os.path.join(work, f"fc_{name}.tar")
+            write_foreign([[m[0], m[1].encode("latin-1"), m[2], m[3], m[4], m[5], m[6],
+                            None if m[7] is None else m[7].encode(), m[8], m[9]] for m in case["members"]], p, ids)
+            run_rd("corpus:" + name, p, ids, "corpus")
+        for i in range(150 if chk.thorough else (63 if chk.fingerprint_changed else 21)):
+            ids = Ids()
+            shape = fshapes[i % len(fshapes)]
+            p = os.path.join(work, f"f{i}.tar")
+            for t in build_foreign(rng, p, ids, shape) - {shape}:
+                chk.cov["streams"]["rd-tag:" + t] = chk.cov["streams"].get("rd-tag:" + t, 0) + 1
+            run_rd(i, p, ids, shape)
         # ---- empty archives: the statement says they read as the empty set
         eoa = b"\0" * 10240
         empties = [("bz2", bz2.compress(b""), "zero-length tar stream, bzip2"),
@@ -776,7 +861,7 @@ def main(chk: Check):
         if name == "rt":
             spec_bad = [rt_meta[i] | {"read_back": rt_cases[i][1]} for i in r[1]]
         for i in r[0][:3]:
-            meta = rt_meta[i] if name in ("w", "rt") else {}
+            meta = rt_meta[i] if name in ("w", "rt") else (rd_meta[i] if i < len(rd_meta) else {})
             corr.append({"what": f"implementation and Model_C25 disagree on stream '{name}' "
                                  "(theorems of Prop_C25 no longer speak about this code)",
                          "case": meta, "input": cases[i][0], "implementation": cases[i][1]})
@@ -806,20 +891,14 @@ def main(chk: Check):
         chk.violation("correspondence", c, no_input=not (prop_failures or spec_bad))
 
 
-def replay(chk, data):
-    """re-run one recorded rt case: rebuild the recorded set from fs objects (file data from the data ids),
-    write it, read it back, print implementation result and oracle verdict; model/spec verdicts are in
-    the recorded violation"""
-    from pkgcore.fs import contents, fs as fsmod
+def objs_from_cin(cin, ids):
+    """fs objects for a recorded / corpus set; file contents are made from the data ids"""
+    from pkgcore.fs import fs as fsmod
     from snakeoil.data_source import data_source
-    inp = data.get("detail", {}).get("input") or {}
-    cin = inp.get("set") or (inp.get("case") or {}).get("set")
-    if not cin:
-        print("nothing to replay in this record (a correspondence record carries the Coq input term)")
-        return
     objs = []
-    ids = Ids()
     for d in cin:
+        d = {"mode": 0o644, "uid": 0, "gid": 0, "mtime": 4, "target": "", "dev": None, "ino": None, "data": 0,
+             "size": 0, "major": 0, "minor": 0, **d}
         kw = {"mode": d["mode"], "uid": d["uid"], "gid": d["gid"], "mtime": d["mtime"] / 4}
         if d["k"] == "reg":
             content = (b"D%d:" % d["data"]).ljust(d["size"], b".")[:d["size"]]
@@ -834,6 +913,42 @@ def replay(chk, data):
             objs.append(fsmod.fsFifo(d["loc"], **kw))
         else:
             objs.append(fsmod.fsDev(d["loc"], major=d["major"], minor=d["minor"], **kw))
+    return objs
+
+
+def replay(chk, data):
+    """re-run one recorded rt case: rebuild the recorded set from fs objects (file data from the data ids),
+    write it, read it back, print implementation result and oracle verdict; model/spec verdicts are in
+    the recorded violation"""
+    from pkgcore.fs import contents
+    inp = data.get("detail", {}).get("input") or {}
+    members = inp.get("members") or (inp.get("case") or {}).get("members")
+    if members:      # an rd record: rebuild the foreign archive from the member rows, read it back
+        tyb = {0: b"0", 1: b"1", 2: b"2", 3: b"3", 4: b"4", 5: b"5", 6: b"6", 99: b"V"}
+        ids = Ids()
+        mem = []
+        for name, ty, mode, uid, gid, mtq, size, link, mj, mn, data in members:
+            content = (b"D%d:" % data).ljust(size, b".")[:size] if ty == 0 else None
+            mem.append([name, tyb[ty], mode, uid, gid, mtq / 4, link, content, mj, mn])
+        work = tempfile.mkdtemp(prefix="verif_c25_replay_")
+        try:
+            p = os.path.join(work, "f.tar")
+            write_foreign(mem, p, ids)
+            back = read_members(p, ids)
+            rows = guarded(lambda: canon_out(impl_read(p, "raw"), ids, time.time(), time.time() + 5, set()))
+            print("implementation:", rows)
+            said = members_as_set(back)
+            print("oracle:", None if said is None else oracle_rt(said, rows, links_by_inode_only=True))
+            print("in known class symdir-chain:", said is not None and in_symdir_chain_class(said))
+        finally:
+            shutil.rmtree(work, ignore_errors=True)
+        return
+    cin = inp.get("set") or (inp.get("case") or {}).get("set")
+    if not cin:
+        print("nothing to replay in this record (a correspondence record carries the Coq input term)")
+        return
+    ids = Ids()
+    objs = objs_from_cin(cin, ids)
     work = tempfile.mkdtemp(prefix="verif_c25_replay_")
     try:
         p = os.path.join(work, "t.tar")
